@@ -608,13 +608,52 @@ def serial_twin(ck, repo):
     ok = len(st) == 1 and unparse(st[0].targets[0]) == f"results[{key}]" and sv.guarded(st[0], lambda t: t.startswith("is_invalid_value("), "F")
     ck.ob("execute_fields_serially: one keyed store per iteration, dropped only when undefined", ok, s, st[0] if st else lp,
           construct="serial:store")
-    rc = [c for c in sv.calls("resolve_field") if contains(lp, c)]
-    want = [sp[0], sp[1], sp[2], nodes, f"Path({sp[3]}, {key})"]
-    ck.ob("execute_fields_serially: resolve_field gets (ctx, parent type, source, this key's nodes, Path(path, key))",
-          len(rc) == 1 and [unparse(a) for a in rc[0].args] == want, s, rc[0] if rc else lp, construct="serial:operands")
+    ok, detail = serial_resolver_calls(repo, s)
+    ck.ob("execute_fields_serially: each iteration awaits the field's baked resolver once, with (ctx, parent type, source, this key's nodes, Path(path, key)) - "
+          "directly or through resolve_field - and an unknown field is skipped", ok, s, lp, construct="serial:operands", detail=detail)
     rets = sv.returns()
     ck.ob("execute_fields_serially: returns the mapping it filled", len(rets) == 1 and unparse(rets[0].value) == "results", s,
           rets[0] if rets else s.node, construct="serial:return")
+
+
+def serial_resolver_calls(repo, s):
+    """Path view of execute_fields_serially with resolve_field inlined: what is awaited in one iteration, with which operands."""
+    from ..pathtab import eager_env
+    from ..q import inlined_view
+    iv = inlined_view(repo, s)
+    sp = s.positional_params
+    lps = [l for l in iv.loops() if isinstance(l, ast.For) and unparse(l.iter) == f"{sp[4]}.items()"]
+    if len(lps) != 1 or not isinstance(lps[0].target, ast.Tuple):
+        return False, "loop over fields.items() not found"
+    key, nodes = [unparse(e) for e in lps[0].target.elts]
+    want = [sp[0], sp[1], sp[2], nodes, f"Path({sp[3]}, {key})"]
+    seen = set()
+    for tr in iv.cfg.simulate(lambda n, env: None):
+        if not any(n.kind == "for" for n in tr.nodes):
+            continue
+        calls = []
+        for i, n in enumerate(tr.nodes):
+            if n.kind != "stmt":
+                continue
+            for c in ast.walk(n.ast):
+                if isinstance(c, ast.Call) and isinstance(c.func, ast.Attribute) and c.func.attr == "resolver":
+                    awaited = any(isinstance(a, ast.Await) and a.value is c for a in ast.walk(n.ast))
+                    pre = eager_env(type(tr)(iv.cfg, tr.path[:i], {}, "prefix"), "CAUGHT")
+                    args = [unparse(pre["__sub__"](a)) for a in c.args]
+                    fd = unparse(pre["__sub__"](c.func.value))
+                    calls.append((awaited, tuple(args[:5]), tuple(args[5:]), fd))
+        unknown = [o for t, o in eager_env(tr, "CAUGHT")["__tests__"] if t.replace(" ", "").startswith("get_field_definition(") and t.replace(" ", "").endswith("isNone")]
+        if not unknown and not calls:
+            continue  # the mapping was empty: no iteration on this path
+        seen.add((tuple(unknown[-1:]), tuple(calls)))
+    ok = len(seen) >= 2
+    for unknown, calls in seen:
+        if unknown == ("T",):
+            ok = ok and not calls
+        else:
+            ok = ok and len(calls) == 1 and calls[0][0] and list(calls[0][1]) == want and calls[0][2] in ((), ("False",)) and \
+                calls[0][3].replace(" ", "") == f"get_field_definition({sp[0]}.schema,{sp[1]},{nodes}[0].name.value)"
+    return ok, str(sorted(map(str, seen)))[:400]
 
 
 def _resolve_field_forward(ck, repo):
